@@ -1,5 +1,6 @@
 """C10 -- Generated C# state machine implements exactly the transition table (token structure; no C# compiler exists here)."""
 import glob
+import itertools
 import json
 import os
 import re
@@ -14,17 +15,26 @@ LEVEL = "proof"
 
 MANIFEST = {
     "technique": "Coq proof (handler token expansion from the template shape, brace-parser lemma, helper methods as source-derived statement IR with a semantics, whole-machine run vs the table interpreter) + execution of the REAL generated C# text by a statement interpreter",
-    "text": ("Theorems C10_sem / C10_init (for every well-formed table, event sequence and guard oracle: constructing the machine -- constructor, Reset(), Enter<StateT>() "
+    "text": ("Theorems C10_threaded_safe / C10_sem_threaded (THREADED configuration, the default of the StateMachineThread user tag: Trigger<e> enqueues, the dispatch thread "
+             "dequeues and dispatches; both executed from the IR that translator/cstmpl.py parses out of the SM_THREAD_1 branches, one statement per atomic step, as an LTS under an "
+             "arbitrary schedule: under EVERY schedule what has been handled is the interpreter's run on a prefix of the Trigger order, and every schedule that lets the producer "
+             "finish and then gives the dispatch thread 2n+1 turns -- every fair one -- handles all n events: exactly the interpreter's callbacks and states). "
+             "Theorems C10_sem / C10_init (for every well-formed table, event sequence and guard oracle: constructing the machine -- constructor, Reset(), Enter<StateT>() "
              "executed from the IR that translator/cstmpl.py parses out of the templates -- runs the first state's entry hook exactly once, and every Trigger<e>, dispatched to "
              "the current state object's class, makes exactly the interpreter's callbacks and leaves estate at its state; a self transition is exit then entry), C10_handlers "
              "(per handler, Exit<S>()/Enter<T>() executed from their IR), C10_handlers_listed_only, C10_state_classes, C10_context_decls. Tie: handler token shape, helper-method "
              "IR and the Trigger<Event> shape regenerated into Gen/CsTmpl.v on every run; the real <Name>Internals.cs is tokenised and compared with CsSM.cs_handler; "
              "the real Context/Internals/StateMachine files are PARSED AND EXECUTED (translator/csmini.py: classes, fields, virtual dispatch, generics, new/is/as, "
              "if/return, assignments, calls; non-threaded preprocessor branch) under a recording context for random event sequences and guard bits and compared with a "
-             "Python reading of the property; extracted run_cs = extracted table_interp_quiet; declaration triples vs Decls.decls_file. "
+             "Python reading of the property; the SM_THREAD_1 branch of the same real files is executed too, under explicit cooperative schedules (csmini.Sched: "
+             "ConcurrentQueue/Queue/BlockingCollection, Thread, AutoResetEvent/ManualResetEvent(Slim), SemaphoreSlim, Monitor/lock as scheduled primitives with a yield point "
+             "before every operation; two random schedules per case and, every 40th case, all 2^7 decision prefixes on <= 3 events), oracle: callbacks = interpreter on the "
+             "Trigger order and nothing left queued when nothing can happen any more; every threaded run is replayed operation by operation on the extracted LTS "
+             "(CsThreads.trun); extracted run_cs = extracted table_interp_quiet; declaration triples vs Decls.decls_file. "
              "ENGINE BRIDGE (C10_handlers_engine, C10_handler_reads, C10_block_is_shipped): for every table with well-formed rows the file the engine model's pipeline (C16) writes from the transition block of the SHIPPED TEMPLATEInternals.cs (Model/CsRender.cs_block16: source-derived lines read into the template syntax, checked to render back) is one class text per cs_classes, one Trigger<e> override per cs_handlers, and the PER_GUARDTRANSITION lines of that override read one by one (without indentation) as the C# statements of the tokens cs_handler t s e; that text is found verbatim in the real <Name>Internals.cs on every case. WHOLE FILE (C10_file_engine): the shipped TEMPLATEInternals.cs as a whole lies in the C16 grammar (user-tag line, <<<TTT_BOOST_SML>>> line, per-state / per-event blocks, the transition block); for every table, interface and assignment of user tags admitted for it (cs_file_wf, evaluated per case) the pipeline's output is ref16 of the file, and the real <Name>Internals.cs is compared with it AS A WHOLE on every case."),
     "note": ("No C# compiler exists here: 'executed' means executed by the harness's own interpreter of the C# subset the generated files use (it refuses anything outside "
-             "the subset); member types and C# name lookup are not checked by anything. The threaded configuration (SM_THREAD_1: queue + dispatch thread) is not modelled; "
+             "the subset); member types and C# name lookup are not checked by anything. The threaded LTS has one producer and runs a dequeued event's handler atomically (producers touch only the queue and the signal); the generated machine has no "
+             "stop/Dispose, the dispatch thread is a background thread: termination is not part of the model. Primitives outside the scheduled set make the interpreter refuse. "
              "the class/handler nesting (PER_STATETRANSITION / PER_EVENTTRANSITION) is modelled in closed form, its template shape is checked by the translator."),
 }
 RULE = ("random well-formed tables (as C08) incl. colliding signature concatenations; C# primitive member types with (trailing) defaults; StateMachineThread 0/1/absent; "
@@ -32,7 +42,7 @@ RULE = ("random well-formed tables (as C08) incl. colliding signature concatenat
         "every listed (state,event) handler additionally executed in isolation under six guard vectors. non-trivial = some handler has more than one row or a row "
         "without guard/target; distinct = (table, interface)")
 ASSUMPTIONS = ["wf_table T (identifier domain as C08)", "defaults only on a trailing run of an event's members; member types are C# primitive types",
-               "non-threaded configuration (the #else branch of SM_THREAD_1) for the executed behaviour",
+               "threaded configuration: one producer thread; fairness = the dispatch thread gets 2n+1 turns after the producer's n Triggers",
                "identifiers are not C# keywords / names fixed by the template (IDispatchable, <Name>State ...)"]
 TRUSTED = ["Coq 8.16.1 kernel (coqc; coqchk in the thorough tier)", "axioms: none",
            "translator/cstmpl.py + translator/csmini.py (regex classification of the PER_GUARDTRANSITION lines and of the class/handler nesting; parser of the helper methods into the statement IR; fail closed)",
@@ -263,6 +273,113 @@ def exec_real(files, table, spec, evs_with_args, bits):
     return steps, None
 
 
+def exec_threaded(files, table, spec, evs_with_args, bits, decisions, idle_limit=14):
+    """Execute the THREADED configuration (SM_THREAD_1 branch) of the real generated text under an explicit cooperative schedule:
+    the constructor starts the dispatch thread, one producer thread calls Trigger<e>(args) in order; at every yield point
+    (Enqueue / TryDequeue / Sleep / WaitOne / Set / Start ...) `decisions` (then round robin) picks the thread that runs.
+    The run ends when the producer is done and nothing can run, or nothing observable happened for `idle_limit` steps.
+    Returns ({"trace": callbacks in order, "is": true Is<State>(), "schedule": [(thread, yield point)], "queued": left in queues}, None) or (None, why)."""
+    st, _ev, _ac, gu = smlib.names(table)
+    texts = []
+    for f in ("%sContext.cs", "%sInternals.cs", "%sStateMachine.cs"):
+        texts.append(re.sub(r"(?m)^\s*#define SM_THREAD_\w+\s*$", "", files[f % NAME]))
+    try:
+        classes = csmini.parse_program(texts, {"SM_THREAD_1"})
+    except csmini.CsError as e:
+        return None, "the generated C# (threaded configuration) is outside the interpreted subset: %s" % e
+    trace, count = [], [0]
+
+    def cb(name, args):
+        trace.append(name)
+        if name in gu:
+            i = count[0]
+            count[0] += 1
+            return bits[i] if i < len(bits) else False
+        return None
+    rr = [0]
+
+    def choose(names, step):
+        if step < len(decisions):
+            return names[decisions[step] % len(names)]
+        rr[0] += 1
+        return names[rr[0] % len(names)]
+    sched = csmini.Sched(choose)
+    it = csmini.Interp(classes, max_steps=400000, sched=sched)
+    smc = "%sStateMachine" % NAME
+    done = [False]
+    try:
+        sm = it.new(smc, [csmini.External(cb)])
+
+        def producer():
+            for ev, args in evs_with_args:
+                m = it.find_method(smc, "Trigger" + ev)
+                if m is None:
+                    raise csmini.CsError("no Trigger%s in the generated state machine" % ev)
+                it.invoke(m, sm, None, list(args))
+            done[0] = True
+        sched.spawn("producer", producer)
+        idle, seen = 0, (0, 0)
+        while True:
+            who = sched.step()
+            if who is None:
+                break
+            queued = sum(len(v.items) for v in sm.fields.values() if isinstance(v, csmini.Builtin))
+            now = (len(trace), queued)
+            idle = 0 if (now != seen or not done[0]) else idle + 1
+            seen = now
+            if done[0] and idle >= idle_limit:
+                break
+        queued = sum(len(v.items) for v in sm.fields.values() if isinstance(v, csmini.Builtin))
+        iss = [s for s in st if it.invoke(it.find_method(smc, "Is" + s), sm, None, [])]
+        return {"trace": list(trace), "is": iss, "schedule": list(sched.log), "queued": queued, "producer_done": done[0]}, None
+    except csmini.CsError as e:
+        return None, "executing the threaded configuration raised: %s (schedule so far %r)" % (e, sched.log[-12:])
+    finally:
+        sched.shutdown()
+
+
+def threaded_case(ctx, files, table, spec, evs_with_args, bits, decisions):
+    """Every triggered event is handled exactly once, in Trigger order, by the handler of the state the machine is in at that
+    moment: the callbacks are those of the interpreter on the Trigger order. Returns (failure or None, schedule)."""
+    evs = [e for e, _a in evs_with_args]
+    want = quiet_interp(table, evs, bits)
+    exp = []
+    for cbs, _st in want:
+        for kind, nm, _e in cbs:
+            exp.append({"guard": nm, "action": nm, "exit": "On%sExit" % nm, "entry": "On%sEntry" % nm}[kind])
+    r, why = exec_threaded(files, table, spec, evs_with_args, bits, decisions)
+    if r is None:
+        return why, None
+    if ctx.km is not None:
+        # schedule replay: the same sequence of atomic operations run by the extracted LTS (Model/CsThreads.v) must leave the
+        # same callbacks and the same number of queued events
+        ops = [w for _t, w in r["schedule"]]
+        known = {"ConcurrentQueue.Enqueue": "1", "ConcurrentQueue.TryDequeue": "0", "Thread.Sleep": "0", "start": None, "Thread.Start": None}
+        if all(w in known for w in ops):
+            msched = [known[w] for w in ops if known[w] is not None]
+            m = ctx.km.call("cs_threaded", table, evs, smlib.bits_arg(bits), msched)
+            mtrace = [{"guard": nm, "action": nm, "exit": "On%sExit" % nm, "entry": "On%sEntry" % nm}[k]
+                      for cbs, _s in smlib.km_steps(m[0]) for k, nm, _e in cbs]
+            if mtrace != r["trace"] or int(m[1]) != r["queued"]:
+                ctx.tie_broken("schedule replay: real threaded run vs CsThreads.trun on the same operation sequence",
+                               {"table": table, "events": evs, "bits": bits, "schedule": r["schedule"], "real": r["trace"], "model": mtrace,
+                                "queued_real": r["queued"], "queued_model": int(m[1])})
+            ctx.count("threaded_schedule_replays")
+        else:
+            ctx.count("threaded_runs_with_operations_outside_the_LTS")
+    sched = [t for t, _w in r["schedule"]]
+    if not r["producer_done"]:
+        return "the producer could not finish its Trigger calls (blocked) under the schedule", r["schedule"]
+    if r["trace"] != exp:
+        k = next((i for i, (a, b) in enumerate(zip(r["trace"], exp)) if a != b), min(len(r["trace"]), len(exp)))
+        return ("threaded configuration: after %d Trigger calls and the dispatch thread running until nothing more happens, the callbacks are %r "
+                "(%d events still queued); the table on the Trigger order says %r (first difference at %d)" % (
+                    len(evs), r["trace"], r["queued"], exp, k)), r["schedule"]
+    if r["is"] != [want[-1][1]]:
+        return "threaded configuration: Is<State>() true for %r at the end, the table says %r" % (r["is"], want[-1][1]), r["schedule"]
+    return None, r["schedule"]
+
+
 def quiet_interp(table, evs, bits):
     return [([c for c in cbs if c[0] != "notrans"], s) for cbs, s in smlib.py_table_interp(table, evs, bits)]
 
@@ -301,7 +418,10 @@ def exec_case(ctx, files, table, spec, evs_with_args, bits):
     return None
 
 
-def one_case(ctx, table, spec, rng_bits, evs_with_args=None):
+LAST_SCHEDULE = [None]
+
+
+def one_case(ctx, table, spec, rng_bits, evs_with_args=None, decisions=None):
     with scratch() as d:
         kj.generate("cs", d, table=table, iface=smlib.build_iface(spec), name=NAME)
         files = {}
@@ -378,6 +498,12 @@ def one_case(ctx, table, spec, rng_bits, evs_with_args=None):
         r = exec_case(ctx, files, table, spec, evs_with_args, rng_bits[0] + rng_bits[1])
         if r:
             return r, "cs-executed-behaviour"
+        for dec in (decisions or []):
+            r, schedule = threaded_case(ctx, files, table, spec, evs_with_args, rng_bits[0] + rng_bits[1], dec)
+            ctx.count("threaded_schedules")
+            if r:
+                LAST_SCHEDULE[0] = {"decisions": list(dec), "schedule": schedule}
+                return r, "cs-threaded-behaviour"
     return None, None
 
 
@@ -406,10 +532,16 @@ def run(ctx):
         if not replay(ctx, data):
             ctx.violation("corpus case %s fails" % os.path.basename(p), dict(data, finding_key=data.get("finding_key", "corpus:" + os.path.basename(p))))
     smlib.ttmodel_batch(ctx, ctx.budget(400, 5000))   # the table model this property's model is built on
-    n = ctx.budget(2500, 30000)
+    n = ctx.budget(1200, 20000)
     for i in range(n):
         table, spec, bits, evs = gen_case(ctx.rng, i)
-        fail, key = one_case(ctx, table, spec, bits, evs)
+        # schedules of the threaded configuration: two random ones per case; every 40th case all 2^7 decision prefixes on <= 3 events
+        decs = [[ctx.rng.randrange(3) for _ in range(ctx.rng.randint(0, 40))] for _ in range(2)]
+        if i % 40 == 0:
+            evs = evs[:3]
+            decs = [list(d) for d in itertools.product([0, 1], repeat=7)]
+            ctx.count("exhaustive_schedule_cases")
+        fail, key = one_case(ctx, table, spec, bits, evs, decs)
         tags = smlib.shape_tags(table)
         ctx.case((json.dumps(table), json.dumps(spec, sort_keys=True)), nontrivial=bool(tags & {"multi_row_group", "row_without_target", "target_only_state"}))
         for tg in tags:
@@ -417,9 +549,28 @@ def run(ctx):
         if i < 2:
             ctx.sample({"table": table, "iface": spec})
         if fail:
-            small = smlib.shrink_rows(table, lambda t: one_case(ctx, t, spec, bits, [ev for ev in evs if ev[0] in smlib.names(t)[1] + [nm for nm, _m in spec["structs"]]])[0] is not None)
+            bad = LAST_SCHEDULE[0]
+            decs1 = [bad["decisions"]] if (key == "cs-threaded-behaviour" and bad) else decs
+            small = smlib.shrink_rows(table, lambda t: one_case(ctx, t, spec, bits, [ev for ev in evs if ev[0] in smlib.names(t)[1] + [nm for nm, _m in spec["structs"]]], decs1)[0] is not None)
             evs = [ev for ev in evs if ev[0] in smlib.names(small)[1] + [nm for nm, _m in spec["structs"]]]
-            ctx.violation(fail, {"table": small, "iface": spec, "bits": bits, "events": evs, "finding_key": key, "original_table": table})
+            if key in ("cs-threaded-behaviour", "cs-executed-behaviour"):     # shorten the event sequence too
+                changed = True
+                while changed and len(evs) > 1:
+                    changed = False
+                    for j in range(len(evs)):
+                        cand = evs[:j] + evs[j + 1:]
+                        try:
+                            if one_case(ctx, small, spec, bits, cand, decs1)[1] == key:
+                                evs, changed = cand, True
+                                break
+                        except Exception:  # noqa
+                            pass
+            fail2, _k = one_case(ctx, small, spec, bits, evs, decs1)
+            rec = {"table": small, "iface": spec, "bits": bits, "events": evs, "finding_key": key, "original_table": table}
+            if key == "cs-threaded-behaviour" and LAST_SCHEDULE[0]:
+                rec["decisions"] = LAST_SCHEDULE[0]["decisions"]
+                rec["schedule"] = LAST_SCHEDULE[0]["schedule"]
+            ctx.violation(fail2 or fail, rec)
 
 
 def replay(ctx, data):
@@ -427,7 +578,8 @@ def replay(ctx, data):
         print(json.dumps(data.get("no_longer_checks"), indent=1)[:3000])
         return False
     bits = data.get("bits") or [[False] * 8, [True] * 8, [True, False] * 4, [False, True] * 4]
-    fail, _key = one_case(ctx, data["table"], data["iface"], bits, data.get("events", []))
+    decs = [data["decisions"]] if data.get("decisions") is not None else [[], [0] * 12, [1] * 12, [0, 0, 0, 0, 1, 1], [1, 0] * 8]
+    fail, _key = one_case(ctx, data["table"], data["iface"], bits, data.get("events", []), decs)
     if fail:
         print("replay:", fail)
     return fail is None
